@@ -219,7 +219,10 @@ AliasExprs == Prop2 \cup {Un("not", a) : a \in {t \in Prop2 : t.k = "un"}}
 (* ---- a this-rooted and an alias-rooted reference in every child slot of every node kind ---- *)
 SlotRefs == {Own("x"), Fld(VarR("@A"), "n"), Fld(Fld(VarR("@A"), "m"), "n"), Idx(Fld(VarR("@A"), "ns"), NumA("0")), Fld(Own("m"), "n"),
              \* the substituted reference sits in an index BELOW a field access whose root is the other kind of reference
-             Fld(Idx(Own("zs"), Fld(VarR("@A"), "i")), "y"), Fld(Idx(Fld(VarR("@C"), "zs"), Own("i")), "y")}
+             Fld(Idx(Own("zs"), Fld(VarR("@A"), "i")), "y"), Fld(Idx(Fld(VarR("@C"), "zs"), Own("i")), "y"),
+             \* ... two or more levels below an index: computed, nested and converted indices
+             Idx(Own("xs"), Bn("+", Fld(VarR("@A"), "i"), NumA("1"))), Idx(Own("xs"), Call("int", Fld(VarR("@A"), "k"))),
+             Idx(Own("xs"), Idx(Fld(VarR("@A"), "ys"), Fld(VarR("@A"), "i"))), Idx(Fld(VarR("@C"), "xs"), Bn("-", Own("i"), NumA("1")))}
 SlotNum(r) ==
   { r, Un("-", r), Bn("+", r, NumA("1")), Bn("-", NumA("1"), r), Bn("*", r, r),
     Call("abs", r), Call("abs", Bn("+", r, NumA("1"))),
@@ -331,6 +334,14 @@ ClashTerms ==
             d \in {Rng("[", NumA("1"), NumA("3"), "]"), SetOf(<<NumA("1"), NumA("2")>>)},
             b \in {Bn("and", Bn(">", VarR("@j"), NumA("0")), VarR("@i")), Bn(">", Fld(VarR("@i"), "w"), VarR("@j")),
                    Bn("or", Bn("=", VarR("@i"), StrA("$s")), Bn(">", VarR("@j"), NumA("0")))}}
+  \* a reference forced to be PRIMITIVE (left of `in`, operand of `=` with a literal, set element) and used as a message / an array
+  \cup {Bn(o, force, use) : o \in {"and", "or"},
+                            force \in {Bn("in", Own("a"), Own("xs")), Bn("in", Own("a"), SetOf(<<NumA("1"), StrA("$s")>>)), Bn("in", Own("a"), Rng("[", NumA("0"), NumA("1"), "]")),
+                                       Bn("=", Own("a"), StrA("$s")), Bn("in", NumA("1"), SetOf(<<Own("a"), NumA("2")>>))},
+                            use \in {Bn(">", Fld(Own("a"), "f"), NumA("0")), Bn(">", Idx(Own("a"), NumA("0")), NumA("1")), Bn(">", Call("yaw", Own("a")), NumA("0"))}}
+  \* the variable of a literal range / set used as the DOMAIN of a nested quantifier
+  \cup {Qn(q, "i", d, Qn(q2, "j", VarR("@i"), Bn(">", VarR("@j"), NumA("0")))) : q \in {"forall", "exists"}, q2 \in {"forall", "exists"},
+            d \in {Rng("[", NumA("0"), NumA("3"), "]"), SetOf(<<StrA("$s"), StrA("$t")>>)}}
   \* top level of a predicate is not boolean
   \cup {Bn("+", Own("x"), NumA("1")), NumA("1"), StrA("$s"), SetOf(<<NumA("1"), NumA("2")>>), Call("abs", Own("x")),
         Rng("[", NumA("1"), NumA("2"), "]"), Un("-", Own("x")), Call("len", Own("xs"))}
@@ -413,6 +424,13 @@ LinCmp == {Bn(op, l, c) : op \in {"<", "<=", ">", ">=", "=", "!="}, l \in Lin2, 
 (* ---- a BARE alias (the message itself) as a function argument, next to ordinary references through the same / another alias ---- *)
 BareAlias == {Bn(o, Bn(">", Call(f, VarR(v1)), NumA("0")), r) : o \in {"and", "or"}, f \in {"yaw", "roll"}, v1 \in {"@A", "@C"},
                  r \in {Bn(">", Fld(VarR("@A"), "n"), Own("x")), Bn("<", Own("x"), NumA("1")), Bn("=", Call("pitch", VarR("@A")), Fld(VarR("@C"), "n"))}}
+(* ---- powers of powers with literal exponents (even inner exponent, exponent 0.5 outside) ---- *)
+PowPow == {Bn(c, Bn("**", Bn("**", b, m), n), r) : c \in {"=", "<", ">="}, b \in {Own("x"), Fld(VarR("@A"), "n"), Bn("-", Own("x"), NumA("1"))},
+              m \in {NumA("2"), NumA("4"), NumA("3")}, n \in {NumA("0.5"), NumA("2"), Un("-", NumA("1"))}, r \in {Own("y"), NumA("1")}}
+(* ---- substitution under a binder of the same name: a set element that mentions a name which a quantifier in the body binds ---- *)
+Capture == {Qn(q, "i", SetOf(<<Fld(VarR("@k"), "lo"), NumA("0")>>), Qn(q2, "k", Rng("[", VarR("@i"), NumA("9"), "]"), Bn(">", Idx(Own("xs"), K), NumA("0")))) : q \in {"forall", "exists"}, q2 \in {"forall", "exists"}}
+           \cup {Qn(q, "b", SetOf(<<Qn("exists", "k", Own("xs"), Bn(">", K, NumA("0"))), Own("ok")>>), Qn("forall", "k", Own("ys"), Bn("or", Bn("<", K, NumA("9")), VarR("@b")))) : q \in {"forall", "exists"}}
+           \cup {Un("not", Qn("exists", "i", SetOf(<<Fld(VarR("@k"), "lo"), Own("x")>>), Qn("forall", "k", Own("xs"), Bn(">", K, VarR("@i")))))}
 RandTerms == {IF i % 3 = 0 THEN RNum(RandDepth) ELSE RBool(RandDepth) : i \in 1..RandN}
 
 Members ==
@@ -439,6 +457,8 @@ Members ==
     [] Family = "negbool" -> NegBool
     [] Family = "lincmp"  -> LinCmp
     [] Family = "barealias" -> BareAlias
+    [] Family = "powpow"  -> PowPow
+    [] Family = "capture" -> Capture
     [] OTHER -> {}
 
 TInit == cst \in Members
